@@ -127,6 +127,10 @@ def decode_both(res, s, cfg, scratch):
 
 def run_history(res, c, scratch, rng):
     cfg = default_config("csv", rng.random() < 0.5, flush=c["flush"], encoding=c["encoding"], csv=c["csv"])
+    if c["flush"] and rng.random() < 0.2:
+        # access mode w+ (truncate on open, then read/write): only ever opened once in a history
+        cfg["access_mode"] = "w+"
+        res.count("histories_access_mode_w+")
     s = Session(cfg, scratch)
     # The "current logical contents" are what the same operations yield on a memory-storage twin: a difference
     # between the file and the twin is the storage layer's doing (C04); a difference between twin and model is a
@@ -197,6 +201,11 @@ def run_history(res, c, scratch, rng):
                         features={"flush": c["flush"], "encoding": c["encoding"], "op": op["op"], "dialect": repr(c["csv"])},
                     ))
                     return
+                # the file is read (separate descriptor) BEFORE any peek through the database's own handle:
+                # seeking that handle would flush its write buffer and hide rows that were never handed to the kernel
+                if c["flush"] and out.exc is None and tout.exc is None:
+                    if not compare(dict(op, then="checked before any further call")):
+                        return
                 try:
                     post = s.contents() if c["flush"] else None
                 except Exception as e:
@@ -253,6 +262,7 @@ def run(res, tier, seed, shard, nshards):
     res.require("file_comparisons")
     res.require("early_terminating_reads")
     res.require("compact_prefix_inserts")
+    res.require("histories_access_mode_w+")
     res.assumptions += [
         "text is drawn from the encoding's repertoire and a row is only used under a dialect the csv module itself round-trips (counted discards)",
         "newline='' (the quantifier does not range over it; the csv docs require it)",
